@@ -32,6 +32,11 @@ bulk variant of a setter, the error path), boundary cases, ordering, aliasing, f
 state left behind by an earlier (possibly failed) call, caches that go stale, two code sites that must agree, behaviour that
 depends on iteration order of a dict/set, differences between the two in-memory backends, values that only appear after a
 serialize/deserialize cycle. At least one of the three should need a sequence of THREE or more calls to manifest.
+If this is round 5 or later: put at least one change into a helper or base-class module the anchored code DEPENDS on (a shared
+utility, a constants table, a base sliver / property-graph method, a data file) rather than into the anchored function itself, and
+prefer ideas such as memoisation, default-argument sharing, early returns, off-by-one boundaries, swapped arguments of the same
+type, a condition that holds for all the common enum members but not a rare one, or a change that only matters for the SECOND
+object of a kind created in one process.
 
 For each change i = 1, 2, 3:
   1. start from a clean worktree (`git -C {W} checkout -- . && git -C {W} clean -fdq`), make the change, and save it with
